@@ -51,6 +51,9 @@ type SQLCase struct {
 	Bound2 map[string]*m.Val `json:"bound2,omitempty"`
 	// Host: the run-time environments are Go structs (converted by the generated function itself)
 	Host bool `json:"host,omitempty"`
+	// Layered: the raw run-time environment is a chain of scopes (val.Env.Derive), the bindings
+	// alternating between the outer and the inner one
+	Layered bool `json:"layered,omitempty"`
 }
 
 var uType = m.Obj(m.Field{Name: "id", T: m.Num}, m.Field{Name: "name", T: m.Str}, m.Field{Name: "at", T: m.Time}, m.Field{Name: "ok", T: m.Bool})
@@ -177,6 +180,7 @@ func genSQLCase(t *rapid.T) *SQLCase {
 	}
 	c := &SQLCase{C: g.crit(rapid.IntRange(0, 5).Draw(t, "depth")), Bound: g.bound}
 	c.Host = rapid.IntRange(0, 3).Draw(t, "host") == 0
+	c.Layered = !c.Host && rapid.IntRange(0, 2).Draw(t, "layered") == 0
 	if rapid.IntRange(0, 2).Draw(t, "second") == 0 {
 		c.Bound2 = map[string]*m.Val{}
 		for _, p := range []string{"pn", "ps", "pt", "pb"} {
@@ -450,10 +454,18 @@ func checkSQL(c *SQLCase) *Outcome {
 			envObj = run.EnvStruct(hv)
 		} else {
 			ve := val.NewEnv()
-			for n, v := range bound {
-				ve.Put(n, run.ToYaeVal(v, nil))
+			inner := ve
+			if c.Layered {
+				inner = ve.Derive()
 			}
-			envObj = ve
+			for i, n := range sortedNames(bound) {
+				if i%2 == 0 {
+					ve.Put(n, run.ToYaeVal(bound[n], nil))
+				} else {
+					inner.Put(n, run.ToYaeVal(bound[n], nil))
+				}
+			}
+			envObj = inner
 		}
 		var sql string
 		var err error
@@ -487,6 +499,9 @@ func checkSQL(c *SQLCase) *Outcome {
 	if c.Host {
 		classes = append(classes, "environment-as-go-struct")
 	}
+	if c.Layered && len(c.Bound) > 0 {
+		classes = append(classes, "environment-as-chain-of-scopes")
+	}
 	if repeatsGroup(c.C) {
 		classes = append(classes, "repeated-group")
 	}
@@ -496,7 +511,7 @@ func checkSQL(c *SQLCase) *Outcome {
 var c20 = Register(&Prop[SQLCase]{ID: "C20", Name: "sql-structure-and-quoting", Gen: genSQLCase, Check: checkSQL})
 
 func TestC20(t *testing.T) {
-	R.Rule = "criteria trees over AND / OR (binary) / NOT to depth 5 in every parent / child combination; leaves = <> > >= < <= on num / str / time / bool columns, IN lists, BETWEEN, LIKE, IS NULL; operands: literals (numbers also spelled in hex / octal / binary / with fraction or exponent, strings also as raw literals), names bound in the run-time environment (substituted by their values), names that are columns, member access on a bound object (its fields in a drawn order); one position in five repeats a condition or group generated earlier in the same tree; one case in three invokes the compiled criteria with a second environment and then the first again; one case in four passes the environments as Go structs; strings from a hostile pool (all three quote characters, backslashes, control characters, NUL, non-ASCII, SQL look-alikes) and random ones; finite numbers incl. > 2^53, >= 2^63, 1e21, 5e-324; oracle: the output is read back by a SQL reader with standard precedence (comparison, NOT, AND, OR) and, with same-connective nesting flattened, must be the criteria tree; each string operand is exactly one literal token that decodes to the operand, numbers are plain positional decimals that read back exactly, booleans 1 / 0, times from_unixtime(unix); non-trivial = >= 2 different connectives, or a string operand with a quote or backslash"
+	R.Rule = "criteria trees over AND / OR (binary) / NOT to depth 5 in every parent / child combination; leaves = <> > >= < <= on num / str / time / bool columns, IN lists, BETWEEN, LIKE, IS NULL; operands: literals (numbers also spelled in hex / octal / binary / with fraction or exponent, strings also as raw literals), names bound in the run-time environment (substituted by their values), names that are columns, member access on a bound object (its fields in a drawn order); one position in five repeats a condition or group generated earlier in the same tree; one case in three invokes the compiled criteria with a second environment and then the first again; one case in four passes the environments as Go structs, one in four as a chain of two scopes (val.Env.Derive) with the bindings spread over both; strings from a hostile pool (all three quote characters, backslashes, control characters, NUL, non-ASCII, SQL look-alikes) and random ones; finite numbers incl. > 2^53, >= 2^63, 1e21, 5e-324; oracle: the output is read back by a SQL reader with standard precedence (comparison, NOT, AND, OR) and, with same-connective nesting flattened, must be the criteria tree; each string operand is exactly one literal token that decodes to the operand, numbers are plain positional decimals that read back exactly, booleans 1 / 0, times from_unixtime(unix); non-trivial = >= 2 different connectives, or a string operand with a quote or backslash"
 	R.Assume = []string{"ref.ReadSQL (harness) is standard SQL precedence; faithfulness of control-character escapes under a particular SQL dialect is not checked"}
 	reportKnown(t, "C20")
 	runRegress(t, "C20")
